@@ -917,6 +917,12 @@ def field_evals(prog, adt, _stack=()):
                             keys = proj_variants(o.proj) if is_enum else field_path(o.proj)[:1]
                             for k in keys:
                                 evals.setdefault(k, {"less": [], "ful": []})[kind].append("%s (%s L%d)" % (c.name, m.name, c.line))
+                                # does this evaluation write into the environment the caller handed to match_node_with_env (not a scratch copy)?
+                                if kind == "ful" and m.name == "match_node_with_env" and len(c.args) >= 3 and c.args[-1][0] != "k":
+                                    own = any(f3 is m and o3.kind == "param" and o3.ref == m.nargs for f3, o3 in
+                                              ultimate_roots(prog, g, c.args[-1], (TRANSPARENT | {"deref", "deref_mut", "as_mut", "borrow_mut", "to_mut"}) - {"clone", "cloned", "to_owned"}))
+                                    if own:
+                                        evals[k].setdefault("own", []).append("%s (%s L%d)" % (c.name, m.name, c.line))
     _FE[key_] = evals
     return evals
 
@@ -957,4 +963,12 @@ def r6(ctx, bearing):
                        "defined_vars() declares the variables of `%s`, but %s evaluates it through the env-less API (%s): those variables are accepted in fix/transform/constraints "
                        "and can never be captured — the fix substitutes an empty string (and repeated occurrences are not compared)" % (key, adt.split("::")[-1], sorted(set(ev["less"]))[:3]),
                        where=dvf.loc())
+                # the declared variables can only reach the result if SOME evaluation of the field writes into the caller's environment:
+                # evaluating the sub-rule only on scratch environments (sibling scans, candidate searches) binds nothing
+                if declared is not None and not ev["less"] and ev["ful"]:
+                    has_own = bool(ev.get("own"))
+                    ctx.ob("R6", "%s.%s declared by defined_vars => some evaluation binds into the caller's environment" % (adt, key), has_own,
+                           "evaluated with the caller's own env at %s" % ev.get("own", [])[:2] if has_own else
+                           "defined_vars() declares the variables of `%s`, but every evaluation of it in match_node_with_env runs on a scratch environment (%s): the variables are accepted in "
+                           "fix/transform/constraints and are never bound — they expand to the empty string" % (key, sorted(set(ev["ful"]))[:3]), where=dvf.loc())
     ctx.floor("R6", "evaluated rule-bearing fields", n, 6)
